@@ -74,7 +74,7 @@ CSV_FIELDS = ['carrier', 'fltno', 'depapt', 'depctry', 'arrapt', 'arrctry', 'dep
               'operating']
 
 HEADER = ('From Coq Require Import ZArith List String Bool Ascii.\n'
-          'From AV Require Import lib.Dates model.C13_Model.\n'
+          'From AV Require Import lib.Dates model.C13_Model model.C13_Parse.\n'
           'From Gen Require Import C13_Extracted.\n'
           'Import ListNotations.\nOpen Scope Z_scope.\n')
 
@@ -217,15 +217,18 @@ def gen_row(rng, line: int):
     if shape < 0.07:
         efffrom, effto, kind = None, None, 'open-both'
     elif shape < 0.11:
-        efffrom, effto, kind = None, dt.date(year, 1, 1) + dt.timedelta(days=rng.randint(0, 80)), 'open-from'
+        efffrom, effto, kind = None, rng.choice([dt.date(year, 1, 1) + dt.timedelta(days=rng.randint(0, 80)),
+                                                 dt.date(year + 1, 1, 1) + dt.timedelta(days=rng.randint(0, 15))]), 'open-from'
     elif shape < 0.15:
-        efffrom, effto, kind = dt.date(year, 12, 31) - dt.timedelta(days=rng.randint(0, 80)), None, 'open-to'
+        efffrom, effto, kind = rng.choice([dt.date(year, 12, 31) - dt.timedelta(days=rng.randint(0, 80)),
+                                           dt.date(year - 1, 12, 31) - dt.timedelta(days=rng.randint(0, 15))]), None, 'open-to'
     elif shape < 0.28:
         efffrom = effto = start
         kind = 'single-day'
     elif shape < 0.36:
-        efffrom = dt.date(year, 12, 31) - dt.timedelta(days=rng.randint(0, 20))
-        effto = dt.date(year + 1, 1, 1) + dt.timedelta(days=rng.randint(0, 20))
+        yy = year - rng.choice([0, 0, 1])
+        efffrom = dt.date(yy, 12, 31) - dt.timedelta(days=rng.randint(0, 20))
+        effto = dt.date(yy + 1, 1, 1) + dt.timedelta(days=rng.randint(0, 20))
         kind = 'year-crossing'
     elif shape < 0.39:
         efffrom, effto, kind = dt.date(year, 1, 1), dt.date(year, 12, 31), 'full-year'
@@ -307,24 +310,211 @@ def gen_row(rng, line: int):
 
 
 # ---------------------------------------------------------------------------------------------
+# deterministic streams (always part of a run, whatever the seed draws elsewhere)
+# ---------------------------------------------------------------------------------------------
+
+def _base_row(o, d, efffrom, effto, days='1234567', deptim='1000', arrtim='1300', arrday='', miles=0):
+    """A valid row; stated distance 0 (= not stated) so that the distance rule cannot drop it."""
+    return {'carrier': 'BA', 'fltno': '1', 'depapt': o, 'depctry': AP[o][5], 'arrapt': d, 'arrctry': AP[d][5],
+            'deptim': deptim, 'arrtim': arrtim, 'arrday': arrday, 'days': days, 'stops': '00', 'genacft': '320',
+            'inpacft': '320', 'service': 'J', 'seats': '0150',
+            'efffrom': _fmt_date(efffrom) if efffrom else '00000000',
+            'effto': _fmt_date(effto) if effto else '99999999',
+            'longest': 'L', 'distance': f'{miles:07d}', 'operating': ''}
+
+
+def cross_year_cases(rng):
+    """Open-ended ranges whose explicit end lies in another year than the data year, and explicit ranges in other
+    years: 'open-ended means start / end of the DATA year', not of the year the other date happens to be in."""
+    out = []
+    for year in (2019, 2016, 2020, 2024):
+        o, d = rng.sample(['LHR', 'CDG', 'FRA', 'DXB', 'SIN', 'JNB', 'KEF', 'CAI'], 2)
+        days = ''.join(str(k) if k in rng.sample(range(1, 8), 3) else ' ' for k in range(1, 8))
+        prev = dt.date(year - 1, 12, 31) - dt.timedelta(days=rng.randint(0, 25))
+        nxt = dt.date(year + 1, 1, 1) + dt.timedelta(days=rng.randint(0, 25))
+        for kind, ef, et in (('open-to,from-in-previous-year', prev, None),
+                             ('open-from,to-in-next-year', None, nxt),
+                             ('open-to,from-in-next-year', nxt, None),
+                             ('open-from,to-in-previous-year', None, prev),
+                             ('explicit,crossing-into-data-year', prev, dt.date(year, 1, 1) + dt.timedelta(days=9)),
+                             ('explicit,crossing-out-of-data-year', dt.date(year, 12, 20), nxt),
+                             ('explicit,other-year', dt.date(year + 1, 3, 1), dt.date(year + 1, 3, 14))):
+            out.append({'year': year, 'row': _base_row(o, d, ef, et, days=days), 'kind': kind})
+    return out
+
+
+def dst_cases(rng):
+    """Both DST switch days of every DST zone, in 2019 and one other data year: operating dates the day before, on
+    and after the switch; local times before / inside / at the end of / after the gap or fold; the airport once as
+    origin (departure near the switch) and once as destination (arrival near the switch, also reached with arrival
+    day offsets +1 / +2 / P from neighbouring dates)."""
+    out = []
+    k = 0
+    for year in (2019, rng.choice([2016, 2020, 2021, 2024])):
+        seen = set()
+        for a in AIRPORTS:
+            zone = a[7]
+            if zone in seen:
+                continue
+            seen.add(zone)
+            _, table = tz_table(zone)
+            for start, _off in table:
+                t = _EPOCH + dt.timedelta(minutes=start)
+                if t.year != year:
+                    continue
+                partner = rng.choice([b[0] for b in AIRPORTS if b[7] != zone and b[0] != 'LH2'])
+                for role in ('origin', 'destination'):
+                    delta = [-90, -30, 0, 45][k % 4]
+                    k += 1
+                    w = t + dt.timedelta(minutes=delta)          # wall-clock time near the switch
+                    hhmm = f'{w.hour:02d}{w.minute:02d}'
+                    sw = w.date()
+                    if role == 'origin':
+                        row = _base_row(a[0], partner, sw - dt.timedelta(days=1), sw + dt.timedelta(days=1),
+                                        deptim=hhmm, arrtim='2359', arrday='2')
+                    else:
+                        ad = ['1', '', '2', 'P'][(k // 4) % 4]
+                        shift = {'1': 1, '': 0, '2': 2, 'P': -1}[ad]
+                        row = _base_row(partner, a[0], sw - dt.timedelta(days=shift + 1),
+                                        sw - dt.timedelta(days=shift - 1), deptim='0001', arrtim=hhmm, arrday=ad)
+                        if ad in ('', 'P'):
+                            row['deptim'] = '0000'
+                    out.append({'year': year, 'row': row, 'kind': f'dst-switch:{role}'})
+    return out
+
+
+ODD_VALUES = {
+    'distance': [' 120', '+120', '-5', '120 '], 'seats': [' 150', '+150'], 'stops': ['0', ' 0', '+0', '000'],
+    'fltno': ['', ' 12', '+7'], 'deptim': ['2400', '0960', '930', ' 930', '-100'], 'arrtim': ['2400', '1260', '5'],
+    'arrday': ['3', '-1', ' 1', '+1', '00'], 'efffrom': ['{d} ', ' {d}'], 'effto': ['{d} ', '+{d}'],
+    'days': ['1.3.5..', '12345678', 'X', '7654321', '1 1 1', '....... '],
+}
+BAD_VALUES = {
+    'distance': ['', 'abc', '12.5', '1e3', '12 3'], 'seats': ['', 'N/A', '1.0'], 'stops': ['', 'x', '0.0'],
+    'fltno': ['12A', 'A12', '1 2'], 'deptim': ['', '12:30', 'noon', '12h0'], 'arrtim': ['', '1x00'],
+    'arrday': ['X', 'N', '+', '1.0', 'PP'], 'efffrom': ['{y}0230', '{y}1301', '{y}0100', '{y}-01-01', '', '0', 'today'],
+    'effto': ['{y}0431', '{y}0000', '', '1'],
+}
+
+
+def odd_and_malformed_cases(rng, n):
+    """Rows that are legal except for one field, which is either unusual-but-readable or unreadable."""
+    out = []
+    fields_odd, fields_bad = list(ODD_VALUES), list(BAD_VALUES)
+    for i in range(n):
+        year = rng.choice([2019, 2019, 2020])
+        o, d = rng.sample(['LHR', 'CDG', 'FRA', 'DXB', 'JFK', 'SYD', 'NRT', 'GRU'], 2)
+        start = dt.date(year, 1, 1) + dt.timedelta(days=rng.randint(0, 330))
+        row = _base_row(o, d, start, start + dt.timedelta(days=rng.randint(0, 12)),
+                        deptim=f'{rng.randint(0, 23):02d}{rng.randint(0, 59):02d}', arrtim='2330', arrday='1')
+        if i % 2 == 0:
+            f = fields_odd[(i // 2) % len(fields_odd)]
+            v = rng.choice(ODD_VALUES[f])
+            kind = 'odd:' + f
+        else:
+            f = fields_bad[(i // 2) % len(fields_bad)]
+            v = rng.choice(BAD_VALUES[f])
+            kind = 'malformed:' + f
+        row[f] = v.format(d=row[f] if f in ('efffrom', 'effto') else '', y=year)
+        out.append({'year': year, 'row': row, 'kind': kind})
+    return out
+
+
+def db_invariants(chk: Check, db, year: int):
+    """Tables of one produced database as a whole (airports / countries / R-tree / counts): every airport once, with
+    the coordinates and country of the airports file; every country once with its continent; one R-tree entry per
+    airport around its position; the recorded counts add up to the schedule rows; no dangling references."""
+    cur = db._conn.cursor()
+    problems = []
+    rows = cur.execute('SELECT id, iata_code, country, latitude, longitude FROM airports').fetchall()
+    codes = [r[1] for r in rows]
+    if len(set(codes)) != len(codes):
+        problems.append(f'airport added twice: {sorted(c for c in set(codes) if codes.count(c) > 1)}')
+    for aid, code, ctry, lat, lon in rows:
+        if code in AP and (ctry, lat, lon) != (AP[code][5], AP[code][2], AP[code][3]):
+            problems.append(f'airport {code} stored as {(ctry, lat, lon)}')
+        box = cur.execute('SELECT min_latitude, max_latitude, min_longitude, max_longitude FROM airport_location_idx '
+                          'WHERE id = ?', (aid,)).fetchall()
+        if len(box) != 1 or not (box[0][0] - 1e-4 <= lat <= box[0][1] + 1e-4 and box[0][2] - 1e-4 <= lon <= box[0][3] + 1e-4
+                                 and box[0][1] - box[0][0] < 1e-3 and box[0][3] - box[0][2] < 1e-3):
+            problems.append(f'spatial index entry of {code}: {box}')
+    nidx = cur.execute('SELECT COUNT(*) FROM airport_location_idx').fetchone()[0]
+    if nidx != len(rows):
+        problems.append(f'{nidx} spatial index entries for {len(rows)} airports')
+    crow = cur.execute('SELECT code, continent FROM countries').fetchall()
+    if len({c for c, _ in crow}) != len(crow):
+        problems.append('country added twice')
+    import csv as _csv
+    with open(REPO / 'src/AEIC/data/airports/countries.csv', newline='', encoding='utf-8') as fp:
+        cont = {r['code']: r['continent'] for r in _csv.DictReader(fp)}
+    for c, k in crow:
+        if cont.get(c) != k:
+            problems.append(f'country {c} stored with continent {k!r}')
+    if {r[2] for r in rows} - {c for c, _ in crow}:
+        problems.append('airport refers to a country that is not in the countries table')
+    bad = cur.execute('SELECT COUNT(*) FROM flights f WHERE f.number_of_flights != '
+                      '(SELECT COUNT(*) FROM schedules s WHERE s.flight_id = f.id)').fetchone()[0]
+    if bad:
+        problems.append(f'{bad} flight(s) whose recorded count differs from their schedule rows')
+    dang = cur.execute('SELECT COUNT(*) FROM schedules s WHERE s.flight_id NOT IN (SELECT id FROM flights)').fetchone()[0]
+    dang += cur.execute('SELECT COUNT(*) FROM flights f WHERE f.origin NOT IN (SELECT id FROM airports) '
+                        'OR f.destination NOT IN (SELECT id FROM airports)').fetchone()[0]
+    if dang:
+        problems.append(f'{dang} dangling reference(s)')
+    chk.count('databases-checked-as-a-whole')
+    if problems:
+        chk.fail(f'database of data year {year}: ' + '; '.join(problems[:4]), {'year': year, 'problems': problems},
+                 signature=None)
+
+
+# ---------------------------------------------------------------------------------------------
 # parsed view of a row (harness reading of the CSV conventions; used by oracle and model input)
 # ---------------------------------------------------------------------------------------------
 
 def parse_row(row):
-    def pdate(t):
-        if t in ('00000000', '99999999'):
-            return None
-        k = int(t)
-        return (k // 10000, k % 10000 // 100, k % 100)
-    dep, arr = int(row['deptim']), int(row['arrtim'])
-    ad = row['arrday']
-    return {
-        'from': pdate(row['efffrom']), 'to': pdate(row['effto']),
-        'days': [k for k in range(1, 8) if str(k) in row['days']],
-        'dep': dep // 100 * 60 + dep % 100, 'arr': arr // 100 * 60 + arr % 100,
-        'arrday': -1 if ad == 'P' else 0 if ad in ('', ' ') else int(ad),
-        'miles': int(row['distance']), 'stops': int(row['stops']),
-    }
+    """Harness reading of the CSV conventions (None if a field cannot be read)."""
+    try:
+        def pdate(t):
+            if t in ('00000000', '99999999'):
+                return None
+            k = int(t)
+            y, m, d = k // 10000, k % 10000 // 100, k % 100
+            dt.date(y, m, d)
+            return (y, m, d)
+        dep, arr = int(row['deptim']), int(row['arrtim'])
+        ad = row['arrday']
+        return {
+            'from': pdate(row['efffrom']), 'to': pdate(row['effto']),
+            'days': [k for k in range(1, 8) if str(k) in row['days']],
+            'dep': dep // 100 * 60 + dep % 100, 'arr': arr // 100 * 60 + arr % 100,
+            'arrday': -1 if ad == 'P' else 0 if ad in ('', ' ') else int(ad),
+            'miles': int(row['distance']), 'stops': int(row['stops']), 'seats': int(row['seats']),
+            'fltno': 0 if row['fltno'] == '' else int(row['fltno']),
+        }
+    except (ValueError, OverflowError):
+        return None
+
+
+def classify_row(row) -> str:
+    """'legal'  : every field in the plain grammar of the schedule format (the property quantifies over these);
+       'odd'    : readable by int()/date() but outside that grammar (signs, blanks around numbers, 24:00, offset 3,
+                  other characters in the days field) — no demand beyond "no crash", judged by the model only;
+       'malformed': some field cannot be read at all — the row must be dropped, not crash the import."""
+    def dig(x, n=None):
+        return x.isascii() and x.isdigit() and (n is None or len(x) == n)
+    if parse_row(row) is None:
+        return 'malformed'
+    odd = False
+    for f in ('stops', 'distance', 'seats'):
+        odd |= not dig(row[f])
+    odd |= not (row['fltno'] == '' or dig(row['fltno']))
+    for f in ('deptim', 'arrtim'):
+        odd |= not (dig(row[f], 4) and int(row[f][:2]) < 24 and int(row[f][2:]) < 60)
+    odd |= row['arrday'] not in ('P', '', ' ', '0', '1', '2')
+    for f in ('efffrom', 'effto'):
+        odd |= not (dig(row[f], 8) and (row[f] in ('00000000', '99999999') or 1970 <= int(row[f][:4]) <= 2099))
+    odd |= any(ch not in '1234567 ' for ch in row['days'])
+    return 'odd' if odd else 'legal'
 
 
 def distance_margin_ok(case) -> bool:
@@ -334,7 +524,10 @@ def distance_margin_ok(case) -> bool:
     o, d = row['depapt'], row['arrapt']
     if o not in AP or d not in AP:
         return True
-    miles = int(row['distance'])
+    try:
+        miles = int(row['distance'])
+    except ValueError:
+        return True
     given = miles * 1.609344
     for swap in (False, True):
         g = geod_m(AP[o][2], AP[o][3], AP[d][2], AP[d][3]) if swap else geod_m(AP[o][3], AP[o][2], AP[d][3], AP[d][2])
@@ -356,6 +549,9 @@ def oracle(case, excluded_equipment):
     """What the property demands for this row: ('skip-allowed', reasons) and, if the row may be imported,
     the flight data and the instance list.  Plain datetime/zoneinfo/pyproj; no AEIC code, no Coq."""
     row, year = case['row'], case['year']
+    cls = classify_row(row)
+    if cls == 'malformed':
+        return {'class': cls, 'reasons': ['unreadable'], 'plausible': None, 'expected': None}
     p = parse_row(row)
     reasons = []
     if row['carrier'] == '\x1a':
@@ -404,8 +600,8 @@ def oracle(case, excluded_equipment):
         exp = {'from': lo.isoformat(), 'to': hi.isoformat(), 'instances': insts, 'dropped': dropped,
                'mask': sum(1 << (k - 1) for k in p['days']), 'dep': p['dep'], 'arr': p['arr'],
                'arrday': p['arrday'], 'distance_km': p['miles'] * 1.609344,
-               'od_pair': min(o, d) + max(o, d)}
-    return {'reasons': reasons, 'plausible': plausible, 'expected': exp}
+               'od_pair': min(o, d) + max(o, d), 'fltno': p['fltno'], 'seats': p['seats']}
+    return {'class': cls, 'reasons': reasons, 'plausible': plausible, 'expected': exp}
 
 
 # ---------------------------------------------------------------------------------------------
@@ -450,8 +646,11 @@ class Impl:
     def close(self):
         from AEIC.config import Config
         import AEIC.utils.airports as apmod
-        for db in self.dbs.values():
-            db.close()
+        for year, db in self.dbs.items():
+            try:
+                db_invariants(self.chk, db, year)
+            finally:
+                db.close()
         apmod._airports = None
         apmod._countries = None
         Config.reset()
@@ -519,15 +718,15 @@ class Impl:
 
 def coq_case(case) -> str:
     row, year = case['row'], case['year']
-    p = parse_row(row)
+    p = parse_row(row) or {'from': None, 'to': None}
     o, d = row['depapt'], row['arrapt']
     ko, kd = o in AP, d in AP
     oc = (udeg(AP[o][2]), udeg(AP[o][3])) if ko else (0, 0)
     dc = (udeg(AP[d][2]), udeg(AP[d][3])) if kd else (0, 0)
     lo = dt.date(*p['from']) if p['from'] else dt.date(year, 1, 1)
     hi = dt.date(*p['to']) if p['to'] else dt.date(year, 12, 31)
-    lm_lo = int((dt.datetime.combine(lo, dt.time()) - _EPOCH).total_seconds() // 60) - 4 * 1440
-    lm_hi = int((dt.datetime.combine(max(hi, lo), dt.time()) - _EPOCH).total_seconds() // 60) + 6 * 1440
+    lm_lo = int((dt.datetime.combine(min(lo, hi), dt.time()) - _EPOCH).total_seconds() // 60) - 6 * 1440
+    lm_hi = int((dt.datetime.combine(max(hi, lo), dt.time()) - _EPOCH).total_seconds() // 60) + 8 * 1440
     tzo0, tzo = tz_segment(AP[o][7], lm_lo, lm_hi) if ko else (0, [])
     tzd0, tzd = tz_segment(AP[d][7], lm_lo, lm_hi) if kd else (0, [])
     gt = []
@@ -537,18 +736,12 @@ def coq_case(case) -> str:
                          ((oc[0], oc[1], dc[0], dc[1]), geod_m(a[2], a[3], b[2], b[3]))):
             v = Raw('None') if val is None else Raw(f'(Some ({int(round(val * 1000))})%Z)')
             gt.append((key, v))
-
-    def cs(s):
-        return Raw(c13_extract.coq_string(s))
-
-    def od(c):
-        return Raw('None') if c is None else Raw(f'(Some {to_coq(tuple(c))})')
-    csvrow = f'(CsvRow {cs(row["carrier"])} {cs(row["service"])} {to_coq(p["stops"])} {cs(row["operating"])} ' \
-             f'{cs(row["genacft"])})'
-    sched = f'(Sched {od(p["from"])} {od(p["to"])} {to_coq(p["days"])} {to_coq(p["dep"])} {to_coq(p["arr"])} ' \
-            f'{to_coq(p["arrday"])})'
-    return (f'run_case (Flags swap_latlon raw_dates) exclude_equipment {to_coq(year)} {csvrow} '
-            f'{to_coq(ko)} {to_coq(kd)} {to_coq(oc)} {to_coq(dc)} {to_coq(p["miles"])} {sched} '
+    cs = c13_extract.coq_string
+    raw = ('(RawRow ' + ' '.join(cs(row[k]) for k in (
+        'carrier', 'service', 'stops', 'operating', 'genacft', 'fltno', 'deptim', 'arrtim', 'arrday', 'days',
+        'distance', 'seats', 'efffrom', 'effto')) + ')')
+    return (f'run_raw (Flags swap_latlon raw_dates) exclude_equipment {to_coq(year)} {raw} '
+            f'{to_coq(ko)} {to_coq(kd)} {to_coq(oc)} {to_coq(dc)} '
             f'{to_coq(tzo0)} {to_coq(tzo)} {to_coq(tzd0)} {to_coq(tzd)} {to_coq(gt)}')
 
 
@@ -559,6 +752,11 @@ WARN_OF = {'SkipUnknownAirport': 'UNKNOWN_AIRPORT', 'SkipZeroDistance': 'ZERO_DI
 
 def same_as_model(m, impl) -> str | None:
     """None if the implementation's observable outcome equals the model's, else a description."""
+    if m == 'RMalformed':
+        return None if impl['result'] == 'row-rejected' else f'model: unreadable row, implementation {impl["result"]}'
+    if not (isinstance(m, tuple) and m[0] == 'ROutcome' and len(m) == 4):
+        return f'unparsed model value {m!r}'
+    fltno, seats, m = m[1], m[2], m[3]
     if m == 'Crashed':
         return None if impl['result'] == 'exception' else f'model Crashed, implementation {impl["result"]}'
     if isinstance(m, tuple) and m[0] == 'Skipped':
@@ -579,6 +777,8 @@ def same_as_model(m, impl) -> str | None:
         want = (mask, dep, arr, arrday, '%04d-%02d-%02d' % tuple(efrom), '%04d-%02d-%02d' % tuple(eto), count)
         if got != want:
             return f'flight record: model {want}, implementation {got}'
+        if (str(f['flight_number']), int(f['seats'])) != (str(fltno), seats):
+            return f'flight number / seats: model {(fltno, seats)}, implementation {(f["flight_number"], f["seats"])}'
         if [list(i) for i in insts] != impl['instances']:
             return f'instances differ: model {len(insts)} vs implementation {len(impl["instances"])}'
         if warn != (impl.get('warning') == 'TIME_MISORDERING'):
@@ -597,6 +797,19 @@ def judge(chk: Check, case, impl, orc):
     info = {'case': case, 'impl': _slim(impl), 'oracle': {'reasons': orc['reasons'], 'plausible': orc['plausible']}}
     exp = orc['expected']
     res = impl['result']
+    info['oracle']['class'] = orc['class']
+    if orc['class'] == 'malformed':
+        if res != 'row-rejected':
+            chk.fail(f'line {case["line"]}: a row with an unreadable field was not dropped ({res} '
+                     f'{impl.get("exception") or ""})', info, signature=None)
+            return True
+        return False
+    if orc['class'] == 'odd':
+        if res == 'exception':
+            chk.fail(f'importing line {case["line"]} (unusual but readable fields) raised {impl["exception"]}', info,
+                     signature=None)
+            return True
+        return False
     if res == 'exception':
         sig = None
         open_ended = row['efffrom'] in ('00000000', '99999999') or row['effto'] in ('00000000', '99999999')
@@ -650,7 +863,7 @@ def judge(chk: Check, case, impl, orc):
         problems.append(f'flight.distance = {f["distance_km"]}')
     if (f['origin'], f['destination'], f['carrier'], f['service'], f['aircraft'], int(f['seats']),
             str(f['flight_number'])) != (row['depapt'], row['arrapt'], row['carrier'], row['service'], row['inpacft'],
-                                         int(row['seats']), str(int(row['fltno']))):
+                                         exp['seats'], str(exp['fltno'])):
         problems.append('flight identification fields differ from the row')
     for code, z in impl['zones'].items():
         if code in AP and z != AP[code][7]:
@@ -692,7 +905,7 @@ def nontrivial(case, orc) -> bool:
     e = orc['expected']
     return bool(e and not orc['reasons'] and len(e['instances']) >= 1
                 and (case['kind'] in ('open-both', 'open-from', 'open-to', 'year-crossing', 'around-dst', 'single-day',
-                                      'leap-boundary')
+                                      'leap-boundary') or case['kind'].startswith(('dst-switch', 'open-', 'explicit,'))
                      or e['dropped'] > 0 or e['arrday'] != 0))
 
 
@@ -731,7 +944,17 @@ def whole_file(chk: Check, impl: Impl, cases, impl_out):
     the totals must equal those of the per-row path."""
     from AEIC.missions.oag import convert_oag_data
     import sqlite3
-    sel = [(c, o) for c, o in zip(cases, impl_out) if c['year'] == 2019 and o['result'] != 'exception']
+    def stops_readable(c):
+        # convert_oag_data counts the valid rows first, calling is_row_valid outside any try: an unreadable `stops`
+        # field aborts the whole file there (noted in design.d/C13.md; unreadable rows are outside the property's
+        # quantifier), so such rows are exercised row by row only
+        try:
+            int(c['row']['stops'])
+            return True
+        except ValueError:
+            return False
+    sel = [(c, o) for c, o in zip(cases, impl_out)
+           if c['year'] == 2019 and o['result'] != 'exception' and stops_readable(c)]
     if not any(o['result'] == 'imported' for _, o in sel):
         return          # (report() divides by the number of imported rows; not this property's business)
     f = chk.tmp / 'rows_2019.csv'
@@ -769,6 +992,14 @@ def gen_cases(chk: Check, n: int):
             continue
         out.append(c)
         line += 1
+    fixed = cross_year_cases(chk.rng) + dst_cases(chk.rng) + odd_and_malformed_cases(chk.rng, chk.n(60, 400))
+    fixed += [dict(c) for c in chk.rng.sample(out, min(12, len(out)))]          # the same row again: a second flight
+    chk.rng.shuffle(fixed)
+    for c in fixed:
+        c = dict(c)
+        c['line'] = line
+        line += 1
+        out.insert(chk.rng.randint(0, len(out)), c)
     return out
 
 
@@ -782,11 +1013,13 @@ def load_corpus(chk: Check):
 
 
 def run(chk: Check):
-    chk.rule = ('schedule rows between 34 airports (zones with/without DST, both hemispheres, UTC-11..+14, half- and '
+    chk.rule = ('raw CSV rows (strings) between 34 airports (zones with/without DST, both hemispheres, UTC-11..+14, half- and '
                 'quarter-hour offsets, co-located pairs) plus unknown codes: every range shape (open-ended on either '
                 'or both sides, single day, year-crossing, reversed, around DST changes, leap day), weekday sets incl. '
                 'empty/all, local times near DST gaps/folds and midnight, arrival day offsets P/blank/0/1/2, stated '
-                'distances accurate / near the 50 km and 10 % thresholds / far off / zero, every row-level skip reason; '
+                'distances accurate / near the 50 km and 10 % thresholds / far off / zero, every row-level skip reason; plus '
+                'fixed streams: open-ended and explicit ranges reaching into other years for four data years, both DST '
+                'switch days of every DST zone, rows with one unusual or unreadable field, repeated rows; '
                 'non-trivial = an importable row with at least one instance that is open-ended, single-day, '
                 'year-crossing, DST-spanning, has a non-zero arrival day offset or a dropped instance')
     chk.trusted += ['translator/c13_extract.py (meaning of the extracted rules: exact arithmetic on integer millimetres, '
@@ -795,7 +1028,18 @@ def run(chk: Check):
                     'zoneinfo (IANA tz database, PEP 495 fold=0 reading of gaps/folds), pyproj/PROJ WGS-84 inverse, '
                     'timezonefinder, SQLite, pandas date_range/Timestamp: exercised for real, enter the theorems '
                     'only as universally quantified oracles']
-    chk.assumptions += ['local times inside a DST gap/fold are read as Python/pandas do (offset before the change)',
+    chk.assumptions += ['tz database: the IANA data of this machine as served by zoneinfo, zone of an airport = '
+                        'timezonefinder.certain_timezone_at(lat, lng) (checked against a hand-written table for the 34 '
+                        'airports); UTC offset of a local wall-clock time = utcoffset() of the naive time with fold=0 '
+                        '(PEP 495): a time inside a gap gets the offset before the switch, a time inside a fold its '
+                        'first occurrence; the model receives exactly these offsets as piecewise-constant tables over '
+                        'local minutes (switch found by bisection to the minute, 2014-2027); every run contains both '
+                        'switch days of every DST zone of the airport list for 2019 and one other data year, with times '
+                        'before / inside / at the end of / after the gap or fold, as origin and as destination, and '
+                        'arrival day offsets P/0/1/2 that carry the arrival across the switch',
+                        'CSV conventions: rows are classified legal / odd / malformed by the harness (classify_row); '
+                        'int() is modelled without underscore separators and non-ASCII digits (never generated)',
+                        'local times inside a DST gap/fold are read as Python/pandas do (offset before the change)',
                         'rows within 0.1 m / 1e-6 % of a distance threshold are re-drawn (float vs exact arithmetic)',
                         'calendar lemmas are an exhaustive sweep of 1970-2099']
     chk.coq_props('props/C13_Props.v')
